@@ -132,6 +132,15 @@ def run(eng, ctx, reader_side=True):
     # ---------------- D2 / D3 read
     ctx.rule("C11.D2", "read: every data return is bytes(B[:k]) paired with the store B = B[k:] (same B, same k, load before store); k is the requested count")
     ctx.rule("C11.D3", "read: the data return is reached only after `while len(B) < n` has exited; the only other return is b'' after a failed receive, with no store on that path")
+    # a failed receive ends the refill loop: no iteration that saw the receiver report failure goes round again (a closed socket would spin for ever)
+    from .util import iteration_ends
+
+    for lid_, info_ in sr.loop_info.items():
+        if info_.get("comp"):
+            continue
+        again = [(k_, st_) for k_, st_ in iteration_ends(info_) if k_ in ("continue", "fall-through") and any(c[0] == "call" and is_self_call(c, rv.name) and not pol for c, pol in st_.guards)]
+        ctx.check(not again, "C11.D3", rd.qualname, "failed receive ends the refill loop", expected="return / break when the receiver reports failure", found=f"{len(again)} path(s) continue the loop after a failed receive" if again else "no such path",
+                  **eng.loc(rd, info_.get("node", rd.node)))
     rets = [e for e in sr.effects if e.kind == "return"]
     stores = [e for e in sr.effects if (e.kind in ("store", "aug") and e.target == ("self", buf)) or (e.kind == "delitem" and e.target and _field_of(e.target[1]) == buf)]
     ctx.instance("read returns", len(rets), 2)
